@@ -346,6 +346,40 @@ pub fn value_reference(m: &Model, ctx: &mut Ctx, rule: &str) {
             Err(e) => ctx.fail_closed(rule, &format!("[{}]: {}", key, e)),
         }
     }
+    // `vb Bb ::= { b1 first, .. }` with `Bb ::= SEQUENCE { b1 ENUMERATED { first, same }, .. }`: the governor of the component value
+    // is the anonymous ENUMERATED, named INNER$b1$Bb by link_struct_like. The enumeral is one of *its* members: the value must
+    // become that type's enumeral or be refused — not stay a bare reference (rendered as the constant `FIRST`, which nothing
+    // defines) and not become the enumeral of an unrelated top-level type that happens to have a member of that name.
+    for (key, enumeral) in [("nested-enumeral", "first"), ("nested-enumeral:unique-name", "only-here")] {
+        ctx.oblige(rule, key, true);
+        let prefix = match consts("INTERNAL_NESTED_TYPE_NAME_PREFIX") { Some(Val::Str(p)) => p, _ => "INNER$".to_string() };
+        let nested = format!("{}b1$Bb", prefix);
+        let members = Val::List(["first", "same", "only-here"].iter().enumerate().map(|(i, m)| named("Enumeral", vec![("name", Val::Str(m.to_string())), ("index", Val::int(i as i128))])).collect());
+        let ty = Val::Ctor("Enumerated".into(), vec![named("Enumerated", vec![("members", members), ("extensible", Val::none()), ("constraints", Val::List(vec![]))])], Map::new());
+        let value = named("ElsewhereDeclaredValue", vec![("identifier", Val::Str(enumeral.into())), ("parent", Val::none()), ("module", Val::none())]);
+        let mut env = Env::new();
+        env.insert("self".into(), value.clone());
+        env.insert(params.first().cloned().unwrap_or("tlds".into()), Val::Opaque("tlds".into()));
+        env.insert(params.get(1).cloned().unwrap_or("ty".into()), ty.clone());
+        env.insert(params.get(2).cloned().unwrap_or("type_name".into()), Val::some(Val::Str(nested.clone())));
+        let r = ev.select_arm(&mt, &Val::Tuple(vec![ty.clone(), value]), &env).and_then(|(i, mut e2)| {
+            let out = ev.eval(&mt.arms[i].body, &mut e2)?;
+            Ok((out, e2.get("self").cloned().unwrap_or(Val::Unit), span_line(&mt.arms[i])))
+        });
+        match r {
+            Ok((Val::Ctor(n, _, _), _, _)) if n == "Err" => {}
+            Ok((_, Val::Ctor(n, _, f2), line)) if n == "EnumeratedValue" => {
+                let en = match f2.get("enumerated") { Some(Val::Str(s)) => s.clone(), Some(o) => o.show(), None => String::new() };
+                if en != nested {
+                    ctx.violate(rule, "nested-enumeral:foreign-type", &f.file, line,
+                        &format!("`vb Bb ::= {{ b1 first }}` with `b1 ENUMERATED {{ first, same }}` inside Bb: the value becomes the enumeral `first` of the type `{}` — an unrelated top-level ENUMERATED that also has a member `first` — and is rendered `{}::first` where the component's own type is expected", en, en));
+                }
+            }
+            Ok((_, v, line)) => ctx.violate(rule, "nested-enumeral:bare-reference", &f.file, line,
+                &format!("`vb Bb ::= {{ b1 only-here, .. }}` with `b1 ENUMERATED {{ first, same, only-here }}` defined inside Bb: after linking the component value is `{}` — neither the enumeral of the component's own type nor an error; the generators render it as the constant `ONLY_HERE`, which nothing defines (E0425 in the bindings, no warning)", v.show().chars().take(100).collect::<String>())),
+            Err(e) => ctx.fail_closed(rule, &format!("[{}]: {}", key, e)),
+        }
+    }
 }
 
 /// C07.cstring: "character strings with doubled quotes unescaped" starts with finding the end of the literal: the scanner
